@@ -8,12 +8,16 @@
 #include <string>
 #include <vector>
 
+#ifndef VERIF_NO_NAUNET
 #include "naunet.h"
+#endif
 #include "naunet_constants.h"
 #include "naunet_macros.h"
 #include "naunet_ode.h"
 #include "naunet_physics.h"
+#ifndef VERIF_NO_NAUNET
 #include "naunet_renorm.h"
+#endif
 
 using boost::numeric::odeint::verif_odeint;
 
@@ -144,7 +148,7 @@ int main() {
 #undef VERIF_IDX
             printf("}\n");
         } else if (cmd == "renorm") {
-#ifdef IDX_ELEM_H
+#if defined(IDX_ELEM_H) && !defined(VERIF_NO_NAUNET)
             int opt; in >> opt;
             std::vector<double> ref; double v;
             while (in >> v) ref.push_back(v);
@@ -173,6 +177,7 @@ int main() {
             long n, th = -1; in >> n; in >> th;
             verif_odeint.nsteps = n; verif_odeint.throw_at = th;
             printf("{\"ev\":\"steps\",\"n\":%ld,\"throw_at\":%ld}\n", n, th);
+#ifndef VERIF_NO_NAUNET
         } else if (cmd == "solve") {
             double dt; int mxsteps = 500; in >> dt; in >> mxsteps;
             double *ab = (double *)malloc(sizeof(double) * NEQUATIONS);
@@ -190,6 +195,7 @@ int main() {
                    verif_odeint.jac_calls);
             parr("ab", ab, NEQUATIONS); printf("}\n");
             free(ab);
+#endif
         } else if (cmd == "quit") {
             break;
         } else {
